@@ -9,6 +9,4 @@ UNITS = {
                                 gname='g_isInCircleRobust', imports_last=True),
     'TP_isInCircleNonRobust': dict(src=TP, qual='geos::triangulate::quadedge::TrianglePredicate::isInCircleNonRobust', nparams=4, imports=F,
                                    gname='g_isInCircleNonRobust', imports_last=True),
-    'TP_triArea': dict(src=TP, qual='geos::triangulate::quadedge::TrianglePredicate::triArea', nparams=3, imports=F,
-                       gname='g_triArea', imports_last=True),
 }
